@@ -43,7 +43,7 @@ def run(ctx):
             ctx.ob("E4.accumulate", fk + "/every-element", False, "no accumulation found", where=where(f))
         cov = [R.covers_all(a_["source"], "sigs") for a_ in accs if a_["source"] is not None]
         ev = evaluate(f)
-        adds0 = [s for s in ev.sites.values() if s.callee[0] == "Add::add" and any((x.op == "index" and B._const_int(x.a[1]) == 0) or (x.op == "cidx" and x.a[1] == 0) for x in subterms(s.args[1]))]
+        adds0 = [s for b_, s in ev.sites.items() if (s.callee[0] == "Add::add" or (s.callee[0] == "AddAssign::add_assign" and b_ not in {a_["bb"] for a_ in accs if a_["fn"] is f})) and len(s.args) == 2 and any((x.op == "index" and B._const_int(x.a[1]) == 0) or (x.op == "cidx" and x.a[1] == 0) for x in subterms(s.args[1]))]
         okc = cov == ["all"] or (cov == ["tail1"] and len(adds0) >= 1)
         ctx.ob("E4.accumulate", fk + "/covers-all", okc, "loop iterates %s and sigs[0] is added %d time(s) on the exits" % (cov, len(adds0)), where=where(f))
         if len(cov) == 1 and cov[0] in ("all", "tail1"):
